@@ -1,6 +1,7 @@
 package checks
 
 import (
+	"strings"
 	"time"
 
 	vmcommon "github.com/ElrondNetwork/elrond-vm-common"
@@ -88,7 +89,7 @@ func RunLedger(property string, tier Tier, profiles []*explore.Profile, require 
 		passes = append(passes, pass{false, p})
 	}
 	for _, p := range profiles {
-		if p.Name == "high-nonce" || p.Name == "role-product" || p.Name == "create-product" {
+		if strings.HasPrefix(p.Name, "high-nonce") || p.Name == "role-product" || p.Name == "create-product" {
 			continue
 		}
 		q := *p
